@@ -4,6 +4,8 @@
      new <kindcode> | newcap <kindcode> <cap>   start a history (the previous array is gc_release'd)
      push <k> <hex> | pop <k> | get <k> <i> | set <k> <i> <hex> | pushnull | rm <i> | clear | reserve <n> | len
      clone | slice <a> <b> | pushs <hexbytes> | gets <i> | sets <i> <hexbytes> | pops <size>
+     pushse <i> | setse <i> <j>        struct push/set whose source is element i/j of the SAME array (pointer into its own block)
+     pushat <k> <i> | setat <k> <i> <j> | pushpop <k>     typed push/set whose value is read from the same array
    k = s-kind letter: i(int) b(u8) f(float) o(bool) s(string) a(array).  Indices/sizes are signed decimal int64.
    Answer, one line per input line:   <out> | k=<code> es=<elem_size> len=<n> cap=<n> d=<null | cell,cell,...>
    out = unit | cell <c> | pop <0|1> <c> | null | len <n>;  cell = v<hex> (scalar raw pattern) | b<hexbytes> | u
@@ -157,6 +159,44 @@ int main(void) {
         } else if (!strcmp(cmd, "sets")) {
             size_t sz = unhex(t2, sbuf); uint8_t *src = malloc(sz ? sz : 1); memcpy(src, sbuf, sz);
             dyn_array_set_struct(a, strtoll(t1, NULL, 10), src, sz); free(src); printf("unit");
+        } else if (!strcmp(cmd, "pushse")) {
+            /* exactly the call the transpiler emits for (array_push xs (at xs i)) on an array<struct>: the source is the element itself */
+            dyn_array_push_struct(a, dyn_array_get_struct(a, strtoll(t1, NULL, 10)), a->elem_size); printf("unit");
+        } else if (!strcmp(cmd, "setse")) {
+            dyn_array_set_struct(a, strtoll(t1, NULL, 10), dyn_array_get_struct(a, strtoll(t2, NULL, 10)), a->elem_size); printf("unit");
+        } else if (!strcmp(cmd, "pushat")) {          /* push_<k>(a, get_<k>(a, i)) */
+            int64_t i = strtoll(t2, NULL, 10);
+            switch (k) {
+                case 'i': dyn_array_push_int(a, dyn_array_get_int(a, i)); break;
+                case 'b': dyn_array_push_u8(a, dyn_array_get_u8(a, i)); break;
+                case 'f': dyn_array_push_float(a, dyn_array_get_float(a, i)); break;
+                case 'o': dyn_array_push_bool(a, dyn_array_get_bool(a, i)); break;
+                case 's': dyn_array_push_string(a, dyn_array_get_string(a, i)); break;
+                case 'a': dyn_array_push_array(a, dyn_array_get_array(a, i)); break;
+            }
+            printf("unit");
+        } else if (!strcmp(cmd, "setat")) {           /* set_<k>(a, i, get_<k>(a, j)) */
+            int64_t i = strtoll(t2, NULL, 10), j = strtoll(t3, NULL, 10);
+            switch (k) {
+                case 'i': dyn_array_set_int(a, i, dyn_array_get_int(a, j)); break;
+                case 'b': dyn_array_set_u8(a, i, dyn_array_get_u8(a, j)); break;
+                case 'f': dyn_array_set_float(a, i, dyn_array_get_float(a, j)); break;
+                case 'o': dyn_array_set_bool(a, i, dyn_array_get_bool(a, j)); break;
+                case 's': dyn_array_set_string(a, i, dyn_array_get_string(a, j)); break;
+                case 'a': dyn_array_set_array(a, i, dyn_array_get_array(a, j)); break;
+            }
+            printf("unit");
+        } else if (!strcmp(cmd, "pushpop")) {         /* push_<k>(a, pop_<k>(a, &ok)) */
+            bool ok = false;
+            switch (k) {
+                case 'i': { int64_t v = dyn_array_pop_int(a, &ok); dyn_array_push_int(a, v); break; }
+                case 'b': { uint8_t v = dyn_array_pop_u8(a, &ok); dyn_array_push_u8(a, v); break; }
+                case 'f': { double v = dyn_array_pop_float(a, &ok); dyn_array_push_float(a, v); break; }
+                case 'o': { bool v = dyn_array_pop_bool(a, &ok); dyn_array_push_bool(a, v); break; }
+                case 's': { const char *v = dyn_array_pop_string(a, &ok); dyn_array_push_string(a, v); break; }
+                case 'a': { DynArray *v = dyn_array_pop_array(a, &ok); dyn_array_push_array(a, v); break; }
+            }
+            printf("unit");
         } else if (!strcmp(cmd, "pops")) {
             size_t sz = (size_t)strtoull(t1, NULL, 10); bool ok = false;
             uint8_t *dst = malloc(sz ? sz : 1);
